@@ -566,7 +566,8 @@ def run_tknorm(case, ctx):
         except Exception as e:
             ctx.violation(f"{site}/raises/{cls}", f"{label} form={form}: {type(e).__name__}: {e}")
             continue
-        ctx.nontriv([case, site, form])
+        if any(abs(x - 1.0) > 1e-9 for nk in norms0 for x in nk):
+            ctx.nontriv([case, site, form])
         ctx.outcome("tknorm:" + cls)
         if core1.shape != tuple(ranks) or [f.shape for f in f1] != [f.shape for f in f0]:
             ctx.violation(f"{site}/malformed-result", f"{label} form={form}: core {core1.shape}, factors {[f.shape for f in f1]}")
@@ -688,7 +689,8 @@ def run_pf2norm(case, ctx):
         except Exception as e:
             ctx.violation(f"parafac2_normalise/raises/{cls}", f"{label} form={form}: {type(e).__name__}: {e}")
             continue
-        ctx.nontriv([case, form])
+        if any(abs(x - 1.0) > 1e-9 for nk in norms0 for x in nk) or any(x != 1 for x in wv):
+            ctx.nontriv([case, form])
         ctx.outcome("pf2norm:" + cls)
         if [f.shape for f in f1] != [f.shape for f in f0] or [p.shape for p in P1] != [p.shape for p in P0] or (w1 is not None and w1.shape != (R,)):
             ctx.violation("parafac2_normalise/malformed-result", f"{label} form={form}: factors {[f.shape for f in f1]} projections {[p.shape for p in P1]}")
